@@ -358,6 +358,7 @@ def run(c, prog):
         M = shape.Matcher(N, lambda a, b: a == b)
         M.collect = False
         M.optional_read_prims = {"chars"}
+        M.return_sink = True
         try:
             outs = M.match(Iw.events, Ir.events, {})
         except shape.Mismatch as e:
@@ -366,7 +367,8 @@ def run(c, prog):
         errs = []
         for subst, sinks, conds in outs:
             a2 = shape.assumptions(conds)
-            t = N.norm(val, subst, a2)
+            early = [x[1] for x in sinks if x[0] == "__return__"]
+            t = N.norm(early[0] if early else val, subst, a2)
             from .C14_arm import strip_try
             t = N.norm(N.rewrite(strip_try(t)), subst, a2)
             if is_var(t, OK) or is_var(t, SOME):
